@@ -180,6 +180,47 @@ pub fn history_ops() -> Vec<crate::history::Op> {
                 }
             }));
         }
+        // the same text read by ANOTHER format (a sentence of one format is, for the others, a word followed by
+        // something else): alone, and twice in a row (a result remembered after the second sight of a text)
+        for g in fmts::all() {
+            if g.name == f.name {
+                continue;
+            }
+            for n in ["sentence-bare", "sentence", "question"] {
+                let x = history_inputs(&g).into_iter().find(|(m, _)| m == n).map(|(_, x)| x).unwrap_or_default();
+                let (f3, x3) = (f, x.clone());
+                v.push(Op::new(format!("lexical-parse[{}] of the {} text {n}: {x:?}", f.name, g.name), move || match ops::parse_lex(&f3, &x3) {
+                    Ok(l) => format!("{l:?}"),
+                    Err(_) => "Err".into(),
+                }));
+                let (f4, x4) = (f, x.clone());
+                v.push(Op::new(format!("enum-parse[{}] of the {} text {n}: {x:?}", f.name, g.name), move || match outcome(&ops::parse_enum(&f4, &x4)) {
+                    Ok(cv) => show_cv(&cv),
+                    Err(()) => "Err".into(),
+                }));
+            }
+        }
+        for n in ["sentence-bare", "sentence", "question", "atom"] {
+            let x = inputs.iter().find(|(m, _)| m == n).map(|(_, x)| x.clone()).unwrap_or_default();
+            let (f5, x5) = (f, x.clone());
+            v.push(Op::new(format!("both parsers TWICE in a row[{}] {n}: {x:?}", f.name), move || {
+                let a = (ops::parse_lex(&f5, &x5).map(|l| format!("{l:?}")).ok(), outcome(&ops::parse_enum(&f5, &x5)).ok().map(|c| show_cv(&c)));
+                let b = (ops::parse_lex(&f5, &x5).map(|l| format!("{l:?}")).ok(), outcome(&ops::parse_enum(&f5, &x5)).ok().map(|c| show_cv(&c)));
+                format!("{a:?} / {b:?}")
+            }));
+        }
+        // the enum format copied by value into a local of the caller (the shipped enum formats are plain values)
+        for n in ["sentence", "term", "atom-ending-in-copula-head", "implication-term"] {
+            let x = inputs.iter().find(|(m, _)| m == n).map(|(_, x)| x.clone()).unwrap_or_default();
+            let f6 = f;
+            v.push(Op::new(format!("enum-parse on a copied format[{}] {n}: {x:?}", f.name), move || {
+                let own = f6.e.clone();
+                let boxed = Box::new(f6.e.clone());
+                let r1 = quiet_catch(AssertUnwindSafe(|| own.parse::<Narsese>(&x).map(|n| show_cv(&cv_of(&n))).map_err(|_| ())));
+                let r2 = quiet_catch(AssertUnwindSafe(|| boxed.parse::<Narsese>(&x).map(|n| show_cv(&cv_of(&n))).map_err(|_| ())));
+                format!("{r1:?} / {r2:?}")
+            }));
+        }
         // a format instance of the caller's own, created and dropped around one parse
         for n in ["sentence", "term", "atom-ending-in-copula-head", "task"] {
             let x = inputs.iter().find(|(m, _)| m == n).map(|(_, x)| x.clone()).unwrap_or_default();
@@ -194,6 +235,24 @@ pub fn history_ops() -> Vec<crate::history::Op> {
                 match quiet_catch(AssertUnwindSafe(|| own.parse(&x).map_err(|e| e.to_string()))) {
                     Ok(Ok(l)) => format!("{l:?}"),
                     Ok(Err(_)) => "Err".into(),
+                    Err(p) => format!("PANIC: {p}"),
+                }
+            }));
+        }
+    }
+    // a format of the user's own that shares all keywords but one with the shipped ASCII format (the property
+    // speaks of "the format", not only of the shipped ones): the ASCII vocabulary with a worded property copula
+    {
+        let f = fmts::ascii();
+        for (which, text) in [("custom", "<bird-has-wings>."), ("custom", "<bird--]wings>."), ("stock", "<bird--]wings>."), ("stock", "<bird-has-wings>.")] {
+            v.push(Op::new(format!("enum-parse with the {which} ASCII-like format: {text:?}"), move || {
+                let mut own = f.e.clone();
+                if which == "custom" {
+                    own.statement.copula_property = "-has-";
+                }
+                match quiet_catch(AssertUnwindSafe(|| own.parse::<Narsese>(text).map(|n| show_cv(&cv_of(&n))).map_err(|_| ()))) {
+                    Ok(Ok(s)) => s,
+                    Ok(Err(())) => "Err".into(),
                     Err(p) => format!("PANIC: {p}"),
                 }
             }));
